@@ -1,6 +1,5 @@
 PROP = dict(
     id="C35",
-    disabled=True,
     engines=["c35"],
     go_tags=["c35"],
     gen_files={"MM/Gen/C35.lean": "c35"},
@@ -15,6 +14,10 @@ PROP = dict(
         "MM.C35.C35_noninterference",
         "MM.C35.C35_nonsecret_preserved",
         "MM.C35.C35_empty_stays_empty",
+        "MM.C35.C35_lists_detached",
+        "MM.C35.C35_arrays_unchanged",
+        "MM.C35.C35_aliasing_expressible",
+        "MM.C35.C35_original_unchanged",
     ],
     spec=True,
     rule="configurations built by reflection over config.Config: 0..14 string leaves set (65% in secret-looking slots, list indices 0..3), "
@@ -33,7 +36,8 @@ PROP = dict(
     assumptions=[
         "the YAML round trip and the marshaller are parameters of the theorems (no assumption on them) — except C35_redacted_secret_slots "
         "(round trip faithful or failing)",
-        "'original unchanged' is established per differential case (DeepEqual with a twin), not by a Lean theorem",
+        "'original unchanged': C35_original_unchanged is about a memory model with aliasing (struct by value, lists by reference); "
+        "which lists are detached before being written is a regenerated behavioural fact; DeepEqual with a twin on every differential case",
     ],
     manifest=dict(
         category="proof",
